@@ -173,7 +173,8 @@ def check_item(it):
     if st1 == 'ok' and it.get('cli_invariants'):
         si1, oi1, _ = common.run_cli_files([it['src']], ['--invariants'], timeout=it['budget'])
         si2, oi2, ei2 = common.run_cli_files([other['src'], it['src']], ['--invariants'], timeout=it['budget'])
-        if si1 == 'ok' and si2 != 'timeout':
+        sio, _, _ = common.run_cli_files([other['src']], ['--invariants'], timeout=it['budget'])      # an error of the FIRST file ends the run: nothing to compare then
+        if si1 == 'ok' and sio == 'ok' and si2 != 'timeout':
             checked += 1
             label = 'cli --invariants (default goals): second file after another file'
             alone_secs = sections(oi1)
